@@ -115,7 +115,7 @@ func runOnce(job *Job, ch vs.Chooser, trace bool) (*vs.Result, *Outcome) {
 		out, res = runC18(job.C18, cc, trace)
 	case "C03conc":
 		out, res = c03Run(job.C03, cc, trace)
-	case "C14conc":
+	case "C14conc", "C17open":
 		out, res = c14Run(job.C14, cc, trace)
 	case "C14ctl":
 		out, res = c14CtlRun(job.C14Ctl, cc, trace)
